@@ -87,6 +87,10 @@ type sut struct {
 
 type sutDead struct{}
 
+// continueSafe lists the oracles after whose failure model and system still
+// agree on the state (only a returned flag/number was wrong).
+var continueSafe = map[string]bool{"clear-result-all": true, "clear-result-count": true}
+
 type env struct {
 	k        *kernel.K
 	suts     []*sut
@@ -105,7 +109,14 @@ type env struct {
 // fail reports an oracle failure observed on s.
 func (e *env) fail(s *sut, oracle, class, f string, a ...any) {
 	if s.primary {
-		e.k.Violate(prop, oracle, class, f, a...)
+		if e.k.Violate(prop, oracle, class, f, a...) {
+			// a known finding marked "continue": sound only for the oracles about a returned
+			// flag/number (state and model still agree); for every other oracle the run ends here
+			if continueSafe[oracle] {
+				return
+			}
+			e.k.Stop()
+		}
 	}
 	e.k.Violate("C02", "txn-over-inmemory:"+oracle, class,
 		"[only over the real pkg/trie/inmemory backend; the same TrieState calls over the reference backend agree with the model] "+f, a...)
